@@ -86,7 +86,7 @@ def prop_of(sig):
 def nontrivial(c):
     """a behaviour is non-trivial when a backend fault fires or the namespace changes in it, and at least one statement
     runs inside a transaction or on a pinned connection"""
-    ev = any(x["f"]["op"] != "none" or x["k"] == "nschange" for x in c["cmds"])
+    ev = any(x["f"]["op"] != "none" or x["k"] == "nschange" or x.get("mid") for x in c["cmds"])
     stmt = False
     intx = False
     for x in c["cmds"]:
@@ -99,7 +99,7 @@ def nontrivial(c):
 
 
 def key_of(c):
-    return json.dumps([c["ks"], c["user"], [[x["k"], x["sl"], x["kind"], x["first"], x["f"]] for x in c["cmds"]]], sort_keys=True)
+    return json.dumps([c["ks"], c["user"], [[x["k"], x["sl"], x["kind"], x["first"], x["f"], x.get("mid", False)] for x in c["cmds"]]], sort_keys=True)
 
 
 class Family:
@@ -256,6 +256,8 @@ class Family:
                     counts[fa] = counts.get(fa, 0) + 1
                 if x.get("ord"):
                     counts["order-dependent"] = counts.get("order-dependent", 0) + 1
+                if x.get("mid"):
+                    counts["nschange-during-command"] = counts.get("nschange-during-command", 0) + 1
             if sample is not None:
                 pr = sample(c) if callable(sample) else sample
                 if rng.random() >= pr:
@@ -382,7 +384,7 @@ class Family:
             self.validate_clean(10000)
             self.validate_rejected_sample(12)
         want = ["begin", "commit", "rollback", "setac0", "setac1", "unshard/read", "unshard/write", "unshard/lockread", "shard/read",
-                "shard/write", "ping", "quit", "disconnect", "nschange", "order-dependent"] + \
+                "shard/write", "ping", "quit", "disconnect", "nschange", "nschange-during-command", "order-dependent"] + \
                ["fault:%s" % f for f in ("get/err", "begin/broken", "setac/broken", "exec/err", "exec/broken", "exec/closed",
                                          "commit/broken", "rollback/broken", "ping/broken", "sync/broken", "init/broken")]
         if self.pid == "C23":
